@@ -8,5 +8,5 @@ for p in "$@"; do
   [ -f $m/patch.diff ] || { echo "no patch.diff"; continue; }
   fl=""; [ "$p" = C17 ] && fl="--cfg poster_verif"
   /verif/bin/confirm_mutant.sh $m demo "$fl" 2>&1 | grep -v WARNING
-  /verif/bin/try_mutant_iso.sh $m/patch.diff $p 2>&1 | grep -v WARNING | tail -4
+  ISO=${ISO:-/tmp/iso} /verif/bin/try_mutant_iso.sh $m/patch.diff $p 2>&1 | grep -v WARNING | tail -4
 done
